@@ -215,7 +215,12 @@ impl<'m> MCTPSMBusContext<'m> {
     ///
     /// `packet`: A buffer of the packet to get the headers from.
     fn get_smbus_headers(&self, packet: &[u8]) -> Result<SMBusHeaders, (MessageType, DecodeError)> {
-        // packet is a MCTPSMBusPacket
+        // packet is a MCTPSMBusPacket, it needs to at least contain the SMBus
+        // header, the transport header, the message type and the PEC
+        if packet.len() < 10 {
+            return Err((MessageType::Invalid, DecodeError::Unknown));
+        }
+
         let mut smbus_header_buf: [u8; 4] = [0; 4];
         smbus_header_buf.copy_from_slice(&packet[0..4]);
         let smbus_header = MCTPSMBusHeader::new_from_buf(smbus_header_buf);
@@ -365,6 +370,14 @@ impl<'m> MCTPSMBusContext<'m> {
         packet: &'a [u8],
         calculated_pec: u8,
     ) -> Result<ControlRawPacketData<'a, 'b>, (MessageType, DecodeError)> {
+        // We need at least the control message header and the PEC
+        if packet.len() < 3 {
+            return Err((
+                MessageType::MCtpControl,
+                DecodeError::ControlMessage(ControlMessageError::InvalidControlHeader),
+            ));
+        }
+
         // Decode the header
         let mut control_message_header_buf: [u8; 2] = [0; 2];
         control_message_header_buf.copy_from_slice(&packet[0..2]);
@@ -378,7 +391,14 @@ impl<'m> MCTPSMBusContext<'m> {
                     (2, None, control_message_header.get_request_data_len())
                 }
                 0 => {
-                    // Response
+                    // Response, this also needs a completion code
+                    if packet.len() < 4 {
+                        return Err((
+                            MessageType::MCtpControl,
+                            DecodeError::ControlMessage(ControlMessageError::InvalidControlHeader),
+                        ));
+                    }
+
                     if packet[2] != CompletionCode::Success as u8 {
                         return Err((
                             MessageType::MCtpControl,
